@@ -13,6 +13,9 @@ Core == << [k |-> "prefix", name |-> "k", value |-> R(20)],
            [k |-> "unit", name |-> "c", scale |-> R(2), ref |-> Single("e", One), sym |-> "C", alias |-> "cee"],
            [k |-> "unit", name |-> "e", scale |-> R(20), ref |-> Single("a", One), sym |-> "E", alias |-> "eee"] >>
 Tail2 == << [k |-> "ddim", name |-> "[V]", ref |-> Mul(Single("[A]", One), Single("[B]", R(-1)))],
+            [k |-> "ddim", name |-> "[W]", ref |-> Mul(Single("[V]", R(2)), Single("[A]", R(-1)))],      \* through [V], squared
+            [k |-> "ddim", name |-> "[X]", ref |-> Mul(Single("[W]", R(-1)), Single("[V]", <<1, 2>>))],
+            [k |-> "context", name |-> "ctx", param |-> "p", default |-> <<3, 2>>, src |-> "[A]", dst |-> "[B]", coef |-> R(5)],
             [k |-> "alias", of |-> "c", name |-> "c2"] >>
 Perms == {p \in [1..6 -> 1..6] : \A i, j \in 1..6 : i # j => p[i] # p[j]}
 Permuted(p) == [i \in 1..6 |-> Core[p[i]]] \o Tail2
@@ -28,7 +31,7 @@ Damage(lines, why) ==
       [] OTHER -> lines \o <<[k |-> "bad", why |-> why]>>
 VARIABLES kind, perm, mode, why, file, obs, wf
 vars == <<kind, perm, mode, why, file, obs, wf>>
-NoObs == [units |-> <<>>, spell |-> <<>>, prefixes |-> <<>>, sym |-> <<>>]
+NoObs == [units |-> <<>>, spell |-> <<>>, prefixes |-> <<>>, sym |-> <<>>, ddims |-> <<>>, ctxs |-> <<>>]
 Init == kind = "init" /\ perm = <<>> /\ mode = 0 /\ why = "" /\ file = <<>> /\ obs = NoObs /\ wf = TRUE
 Good == /\ kind = "init" /\ kind' = "good" /\ why' = ""
         /\ \E p \in Perms, m \in {0, 1, 2} :
@@ -45,4 +48,5 @@ IllFormedRejected == kind = "bad" => ~wf
 MeaningIsWhatIsWritten == kind = "good" =>
     /\ obs.units["c"].f = R(40) /\ obs.units["d"].f = R(2400) /\ obs.units["d"].dim = HashKey(Mul(Single("[A]", R(2)), Single("[B]", R(-1))))
     /\ obs.spell["dee"] = "d" /\ obs.spell["c2"] = "c" /\ obs.prefixes["k"] = R(20)
+    /\ obs.ddims["[W]"] = HashKey(Mul(Single("[A]", One), Single("[B]", R(-2)))) /\ obs.ctxs["ctx"] = <<45, 2>>
 =============================================================================
